@@ -439,10 +439,8 @@ class MainLoop:
 
         try:
             self.event_loop.run()
-        except:
-            self.screen.stop()  # clean up screen control
-            raise
-        self.stop()
+        finally:
+            self.stop()  # clean up screen control and the hooks added to the event loop
 
     def _update(self, keys: list[str], raw: list[int]) -> None:
         """
